@@ -449,7 +449,7 @@ fn golden() -> Vec<Case> {
 
 fn groups(g: &mut Groups) {
     g.enumerate("golden", |_| golden(), false, run_injected);
-    g.prop("injected", 60_000, 3_000_000, || case(64), run_injected);
-    g.prop("injected_long", 1_500, 60_000, || case(600), run_injected);
+    g.prop("injected", 60_000, 6_000_000, || case(64), run_injected);
+    g.prop("injected_long", 1_500, 120_000, || case(600), run_injected);
     super::c05_loop::groups(g);
 }
